@@ -343,10 +343,10 @@ fn gen_selfbound(ch: &mut Ch, _thorough: bool) -> Option<Case> {
         0 => l.push(format!("bound({pred})")),
         1 => l[0] = format!("{}(bound({pred}))", list[0]),
         2 => type_attr = h(helper.unwrap()),
-        3 => field_attr = format!("#[derive_ex(bound({pred}))]"),
+        3 => field_attr = format!("#[derive_ex({}, bound({pred}))]", list.join(", ")),
         4 => field_attr = format!("#[derive_ex({}(bound({pred})))]", list[0]),
         5 => field_attr = h(helper.unwrap()),
-        _ => variant_attr = format!("#[derive_ex(bound({pred}))]"),
+        _ => variant_attr = format!("#[derive_ex({}, bound({pred}))]", list.join(", ")),
     }
     if stops {
         // the generated impl needs `T: Trait`, which a stopping list removes: only explore the continuing forms
